@@ -1,6 +1,8 @@
 import PortusModel.Driver.Util
 import PortusModel.Driver.Wire
 import PortusModel.Vm.Datapath
+import PortusModel.Lang.Lower
+import PortusModel.Base.Utf8
 /-! `VM`: the libccp model behind the same line protocol as /verif/harness/cvm/drv.c -/
 namespace Portus.Driver
 open Portus Portus.Vm
@@ -80,5 +82,34 @@ def vmCmd (args : List String) : String :=
     | [] => acc.reverse
     | o :: rest => let r := vmOp st o; go r.1 rest (r.2 :: acc)
   joinWith " | " ("INIT 0 05000c000000000001000000" :: go { dp := Dp.init, now := 0 } ops [])
+
+end Portus.Driver
+
+namespace Portus.Driver
+open Portus Portus.Lang
+
+/-- `LOW <srchex>`: does the model compiler's output equal the reference lowering? (self-test of the
+C01 proof split; not a correspondence with the implementation) -/
+def lowCmd (args : List String) : String :=
+  match args with
+  | [src] =>
+    match (fromHex src).bind utf8Decode with
+    | none => "NA"
+    | some cps =>
+      let s := cps.map Char.ofNat
+      match parseSource s with
+      | none => "NA-noparse"
+      | some (ds, evs) =>
+        match declareAll (Scope.new 1) ds, compile 1 s [] with
+        | .ok sc0, .ok (bin, scF) =>
+          let ρ : Rho := fun n => (scF.get n).map toVReg
+          match lowerProg ρ ((defInstrs sc0.named).map toVInstr) evs with
+          | some lp =>
+            if lp.instrs = bin.instrs.map toVInstr ∧ lp.exprs = bin.events.map (fun e =>
+                ({ condStart := e.flagIdx, numCond := e.numFlag, eventStart := e.bodyIdx, numEvent := e.numBody } : Libccp.Expr))
+            then "SAME" else "DIFF"
+          | none => "NOLOWER"
+        | _, _ => "NA-nocompile"
+  | _ => "BADARG"
 
 end Portus.Driver
